@@ -96,6 +96,13 @@ def setGet (s : State) (j : Nat) (g : GetT) : State := { s with gets := s.gets.s
 /-- what a reader gets from an opened file: its complete content, or a decode failure -/
 def openResult (f : File) (e : Elem) : GetPc := if f.corrupt then .failed e else .done (some f.content)
 
+/-- the failed-entry removal: `RemoveElement(captured)` only if the list element still holds the
+value whose file could not be read (`Add` re-uses the element when a key is overwritten) -/
+def removeIfSame (l : Lru) (e : Elem) : Lru :=
+  match l.order.find? (fun x => x.id == e.id) with
+  | some cur => if cur.val.random == e.val.random then removeElemId l e.id else l
+  | none => l
+
 def step (s : State) : Step → State
   | .putReserve i =>
     match s.puts[i]? with
@@ -163,7 +170,7 @@ def step (s : State) : Step → State
     match s.gets[j]? with
     | some g =>
       (match g.pc with
-       | .failed e => setGet { s with lru := removeElemId s.lru e.id } j { g with pc := .done none }
+       | .failed e => setGet { s with lru := removeIfSame s.lru e } j { g with pc := .done none }
        | _ => s)
     | none => s
   | .unlink =>
